@@ -663,6 +663,8 @@ func (e *ssaEval) instr(fr *frame, ins ssa.Instruction) {
 				set(x, r)
 			} else if r, ok := e.funcTableLookupY5(x, i); ok { // a read-only table of functions (ext_y5.go)
 				set(x, r)
+			} else if r, ok := e.roFuncLookup(x, i); ok { // a read-only table of functions (ext_y6.go)
+				set(x, r)
 			}
 		}
 	case *ssa.Slice:
@@ -1187,6 +1189,9 @@ func (e *ssaEval) doCall(fr *frame, x *ssa.Call) sv {
 	maxDepth := 4
 	if e.maxDepth > 0 {
 		maxDepth = e.maxDepth
+	}
+	if fn == nil {
+		fn = e.tableFnCallee(fr, x) // a function looked up in a read-only table of functions (ext_y6.go)
 	}
 	if g := e.c.thunkTarget(fn); g != nil { // a method expression held as a function value (ext_x8.go)
 		fn = g
